@@ -150,8 +150,8 @@ reg("C12", "^TestC12$", q=(120, 4, 900), t=(800, 16, 3600), batch=60,
     note="Trusted: ref.VerifyProof/Frontier/Sparse; world generator keeps the contracts' 'every verification is followed by an info update' discipline.",
     design="§3 C12")
 
-reg("C06", "^TestC06$", q=(25, 4, 1500), t=(300, 16, 7200), batch=25,
-    technique="property-based testing: rapid-generated chains and fork operations bound to RPC-count triggers, some applied atomically between two consecutive RPCs with a finality jump (plus restarts, changed chunk size, syncers following the latest or the safe block) through the real reorg detector + public l1infotreesync.New on a scripted chain; oracle = convergence to the reference of the final canonical chain at harness-detected quiescence + rewind bounds read from the detector's reorg_event table",
+reg("C06", "^TestC06(Stop)?$", q=(25, 4, 1500), t=(300, 16, 7200), batch=25,
+    technique="property-based testing: rapid-generated chains and fork operations bound to RPC-count triggers, some applied atomically between two consecutive RPCs with a finality jump (plus restarts, changed chunk size, syncers following the latest or the safe block) through the real reorg detector + public l1infotreesync.New on a scripted chain, plus a steered stop-and-switch-back scenario per case (storage fault on a tracked block, stop, fork at that block, restart, switch back to the first fork before the detector's first check); oracle = convergence to the reference of the final canonical chain at harness-detected quiescence + rewind bounds read from the detector's reorg_event table",
     text="Exploration: the real reorg detector, downloader, driver and L1 info processor follow a scripted chain that forks above the "
          "finalized frontier at generated moments; when the chain stops changing and the node is idle its leaves must be those of "
          "the canonical chain; isolated forks of delivered blocks must produce a rewind at or before the first replaced block; no rewind without a replaced delivered block.",
